@@ -6,14 +6,16 @@ import re
 import subprocess
 
 import vlib
-from checks import common
+from checks import common, sesscheck
+import sessions
 
 PROP = "C16"
 LEVEL = "other"
 MODULE = "PropC16"
 THEOREMS = ["C16_script_runs_statement_by_statement", "C16_final_line_break_is_irrelevant",
             "C16_inside_string_nothing_counts", "C16_inside_comment_nothing_counts", "C16_comment_ends_at_line_break",
-            "C16_modes_bind_the_same_globals", "C16_sessions_in_both_modes_partial", "C16_definition_in_file_mode"]
+            "C16_modes_bind_the_same_globals", "C16_sessions_in_both_modes_partial", "C16_definition_in_file_mode",
+            "C16_counted_trees_are_covered_in_both_modes"]
 IMPORTS = ["Base", "Repl", "ReplProofs", "CorrRepl"]
 
 CTX = re.compile(rb"memory context [^\n]*\n")
@@ -147,6 +149,7 @@ def run(tier, seed):
     run = vlib.Run(PROP, LEVEL, tier, seed)
     vlib.build_harness()
     vlib.build_calc()
+    sesscheck.regen_builtins()
     problems = common.prepare(run, PROP, MODULE, THEOREMS)
     for p in problems:
         run.violation({"what": "proof obligation of C16 no longer checks", "broken": p}, no_failing_input=True)
@@ -280,7 +283,17 @@ def run(tier, seed):
         os.rmdir(scratch)
     except OSError:
         pass
+    # ---- 4. sessions of the proven fragment: on the trees the Go parser produced, Coq evaluates the (sound) checkers of the
+    # premises of the two-machine session theorem, value mode and file mode each from the fresh machine
+    import gen_frag
+    fsess = gen_frag.sessions(seed + 16, 40 if tier == "quick" else 600)
+    fres = sessions.run_sessions(fsess, nostck=False)
+    terms = [sessions.session_case_term(r) for r in fres]
+    mcov = vlib.coq_eval_codes("C16modes", sesscheck.IMPORTS + ["StmtSem", "CorrFragment"], terms, "chk_modes", shard=40)
+    modes_cov = {"sessions": len(fsess), "trees": sum(c % 100000 for c in mcov.values()),
+                 "trees_covered_by_the_two_mode_session_theorem": sum(c // 100000 for c in mcov.values())}
     run.cov.update({
+        "proven_fragment_in_both_modes": modes_cov,
         "explanation": "1. %d arbitrary line sequences and file contents over braces, brackets, quotes, escapes and semicolons: the "
                        "inputs the real node.Loop (with the real FReader for files) hands to processInput equal those of the model "
                        "Repl.v.  2. %d scripts built from statements of known extent (one-liners, multi-line blocks, array "
@@ -289,7 +302,12 @@ def run(tier, seed):
                        "loop handed over exactly the statements; the built binary in file mode and as REPL (piped) prints exactly "
                        "what the statements print when entered one by one (node.processInput per statement).  3. %d single "
                        "statements are run with -eval, in the REPL and from a file and compared with processInput (value line "
-                       "modulo the '> ' prefix and string quoting; a syntax error runs nothing)." % (nsoup, nscripts, len(stmts)),
+                       "modulo the '> ' prefix and string quoting; a syntax error runs nothing).  4. %d generated sessions of the proven "
+                       "fragment (definitions and statements): Coq evaluated the sound checkers of the premises of "
+                       "C16_sessions_in_both_modes_partial on the parsed trees; %d of their %d trees are covered in the sense of "
+                       "C16_counted_trees_are_covered_in_both_modes (all but the first tree of a session, whose run also executes "
+                       "the built-ins' definitions)." % (nsoup, nscripts, len(stmts), modes_cov["sessions"],
+                                                        modes_cov["trees_covered_by_the_two_mode_session_theorem"], modes_cov["trees"]),
         "evaluations": nsoup + nscripts + modes,
         "distinct_nontrivial": len({c if isinstance(c, str) else tuple(c) for _, c in cases}) + len(set(texts)) + len(set(stmts)),
         "rule": "distinct line sequences / scripts / statements",
